@@ -1,6 +1,8 @@
 SPECIFICATION Spec
 CONSTANTS
   G = 3
+  DegInit = FALSE
+  MaxSpan = 99
   MaxOps = 4
   Weights <- W3
   Emit = TRUE
